@@ -19,6 +19,10 @@ def make_session(world, prop, tier, seed):
 _OSRV = {}
 
 
+class SessionHang(Exception):
+    pass
+
+
 def _oserver():
     import os, subprocess
     pid = os.getpid()
@@ -39,8 +43,16 @@ def execute(session):
         srv = _oserver()
         srv.stdin.write(json.dumps(session) + '\n')
         srv.stdin.flush()
+        import select
+        ready, _, _ = select.select([srv.stdout], [], [], 300.0)
+        if not ready:
+            # the session does not terminate under -O (e.g. a loop whose exit depended on an assertion): not a verdict
+            srv.kill()
+            _OSRV.clear()
+            raise SessionHang('session did not terminate within 300 s under python -O')
         line = srv.stdout.readline()
         if not line:
+            _OSRV.clear()
             raise HarnessError('python -O session server died')
         r = json.loads(line)
         if 'harness_error' in r:
